@@ -18,7 +18,8 @@ from common import f2h
 DRIVER = 'drv_loop_fista'
 MODULES = ['Alpaqa.Props.C03_Fista', 'Alpaqa.Props.C06_Fista', 'Alpaqa.Props.C19_Fista']
 EXTRA_SOURCES = ['Alpaqa/Model/Fista.lean', 'Alpaqa/Gen/C05.lean', 'Alpaqa/Gen/C06.lean',
-                 'Alpaqa/Gen/C08.lean', 'Alpaqa/Proofs/FistaInv.lean', 'Driver/LoopFista.lean']
+                 'Alpaqa/Gen/C08.lean', 'Alpaqa/Proofs/FistaInv.lean', 'Alpaqa/Proofs/FistaFuel.lean',
+                 'Alpaqa/Proofs/C06Spec.lean', 'Driver/LoopFista.lean']
 GEN_SCRIPTS = ['gen_c05.py', 'gen_c06.py', 'gen_c08.py']
 
 LIB_SUBSET = ['problem/type-erased-problem.cpp', 'inner/internal/panoc-helpers.cpp',
